@@ -90,7 +90,14 @@ def gen_cases(tier, seed):
             ax = rnd.randrange(3)
             tt = rnd.choice([16, 64, 64, 128])
             size[ax] = max(1, 2 ** rnd.randint(1, 24) * tt + rnd.choice([-2, -1, 0, 1, 2, 3]))
+        prefilled = None
+        if rnd.random() < 0.25:
+            # a hand-written description (the documented BigBrain example has "key": "full"
+            # and "chunk_sizes": []) or the info of an earlier run given again
+            prefilled = {"key": rnd.choice(["full", "stale", "1mm", "1um", "20um", ""]),
+                         "chunk_sizes": rnd.choice([[], [[7, 7, 7]], [[64, 64, 64]], None])}
         cases.append({"size": size, "resolution": res, "inherit": inherit,
+                      "prefilled": prefilled,
                       "target": rnd.choice([1, 2, 4, 8, 16, 32, 64, 64, 64, 128, 256, 512]),
                       "max_scales": rnd.choice([None, None, None, 1, 2, 3, 5, 10]),
                       "type": rnd.choice([None, "image", "segmentation"]),
@@ -206,8 +213,13 @@ def run_case(case):
             del info["type"]
         if inh["block"] and inh["encoding"] == "compressed_segmentation":
             info["scales"][0]["compressed_segmentation_block_size"] = [4, 4, 4]
+    pre = case.get("prefilled")
+    if pre:
+        info["scales"][0]["key"] = pre["key"]
+        if pre["chunk_sizes"] is not None:
+            info["scales"][0]["chunk_sizes"] = copy.deepcopy(pre["chunk_sizes"])
     ctx = f"size={size} resolution={res} target={T} max_scales={ms}" + (
-        f" inherited={inh}" if inh else "")
+        f" inherited={inh}" if inh else "") + (f" prefilled={pre}" if pre else "")
     d = _delays(res)
     texp = int(math.log2(T))
     excess0 = sum(max(d) - x for x in d) > 3 * texp
@@ -216,6 +228,7 @@ def run_case(case):
                str(len(set(d))): 1}, "max_scales_cut": 0, "encoder_checks": 0,
            "fractional_resolution": int(any(float(r) != int(r) for r in res)),
            "inherited_encoding": int(bool(inh) and case["encoding"] is None),
+           "prefilled_key_or_chunk_sizes": int(bool(pre)),
            "near_power_of_two_sizes": int(any(
                s_ > 64 and min((s_ - d) & (s_ - d - 1) for d in (-2, -1, 0, 1, 2, 3)
                                if s_ - d > 0) == 0 for s_ in size))}
@@ -256,6 +269,24 @@ def run_case(case):
         r1, r2 = (min(sc[i]["resolution"]) for i in lv)
         subpm = round(r1 * 1000) == round(r2 * 1000)
         viol("duplicate-scale-keys", f"keys {keys[:8]}", KF_SUBPM if subpm else None)
+    # the generated info given to the generator again (a second run with the same options)
+    # describes the same pyramid: geometry identical, keys still pairwise distinct
+    if not v:
+        try:
+            again = dyadic_pyramid.fill_scales_for_dyadic_pyramid(
+                copy.deepcopy(out), target_chunk_size=T, max_scales=ms)
+            obs["regenerated_from_own_output"] = 1
+            geo = [(s["size"], s["resolution"], s["chunk_sizes"]) for s in sc]
+            geo2 = [(s["size"], s["resolution"], s["chunk_sizes"]) for s in again["scales"]]
+            k2 = [s.get("key") for s in again["scales"]]
+            if geo2 != geo:
+                viol("regeneration-from-own-output-differs",
+                     f"{len(geo2)} scales, first difference at level "
+                     f"{next((i for i, (a, b) in enumerate(zip(geo, geo2)) if a != b), min(len(geo), len(geo2)))}")
+            elif len(set(k2)) != len(k2):
+                viol("duplicate-scale-keys", f"after regeneration from own output: {k2[:8]}")
+        except Exception as exc:  # noqa: BLE001
+            viol("regeneration-from-own-output-raised", f"{type(exc).__name__}: {exc}")
     # level 0
     s0 = sc[0]
     if s0["size"] != list(size) or [Fraction(x) for x in s0["resolution"]] != \
@@ -423,5 +454,7 @@ def gates(obs, tier):
         "fractional_resolutions": obs.get("fractional_resolution", 0) > 100,
         "encoder_checks": obs.get("encoder_checks", 0) > 1000,
         "inherited_encodings": obs.get("inherited_encoding", 0) > 50,
+        "prefilled_full_resolution_scales": obs.get("prefilled_key_or_chunk_sizes", 0) > 100,
+        "regenerated_from_own_output": obs.get("regenerated_from_own_output", 0) > 100,
         "sizes_next_to_powers_of_two": obs.get("near_power_of_two_sizes", 0) > 50,
     }
